@@ -12,7 +12,12 @@ from .. import machine as M
 from .. import tlc
 from ..words import limbs
 
-CFGS = {1: dict(arch_version=6), 2: dict(arch_version=7), 3: dict(arch_version=7, memory_system_architecture='VMSA'),
+# the four configurations also differ in what a reset does: VBAR reset value / an IMPLEMENTATION DEFINED reset vector
+_RV = dict(SCTLR="0b01000000000001010000000001111001", MIDR="0b01000001000011111010011101100000", ACTLR="0b00000000000000000000000000000111")
+CFGS = {1: dict(arch_version=6, reset_values=dict(_RV, VBAR="0b00000000000000000000000001000000")),
+        2: dict(arch_version=7, reset_values=dict(_RV, VBAR="0b00000000000000000000000000000000"), has_imp_def_reset_vector=True,
+                impdef_reset_vector=0x60),
+        3: dict(arch_version=7, memory_system_architecture='VMSA', reset_values=dict(_RV, VBAR="0b00000000000000000000000010100000")),
         4: dict(arch_version=6, have_security_ext=False)}
 PROGS = {1: [1, 240, 160, 225, 0, 0, 160, 225, 0, 0, 160, 225],
          2: [0, 32, 147, 229, 4, 48, 131, 226, 0, 32, 147, 229],
@@ -76,6 +81,17 @@ class Inst:
              'd': M.post_delta(pre, post)}
         if getattr(self.arm, '_last_tb', None):
             e['tb'] = self.arm._last_tb
+        gd.events.append(e)
+        return e
+
+
+    def reset(self, gd):
+        """warm reset of this instance (take_reset()), recorded as a Reset event"""
+        pre = M.project(self.arm)
+        out, cls, nunp = M.run_action(self.arm, {'n': 'Reset'})
+        post = M.project(self.arm)
+        e = {'id': len(gd.events) + 1, 'pre': M.diff(gd.base, pre), 'act': {'n': 'Reset'}, 'out': out, 'cls': cls, 'nunp': nunp,
+             'd': M.post_delta(pre, post)}
         gd.events.append(e)
         return e
 
@@ -154,10 +170,35 @@ def run(ctx):
                     gd.events.append({'id': eid, 'pre': {}, 'act': {'n': 'SameDelta'}, 'out': ea['out'], 'out2': other['out'],
                                       'cls': ea['cls'], 'nunp': 0, 'd': ea['d'], 'd2': other['d'], 'full': True})
                     gd.meta[eid] = {'pair': tag, 'c': c, 'p': p, 'k': k}
-    allg = list(groups.values()) + list(detg.values())
+    # isolation of take_reset(): an instance reset while ANOTHER instance's configuration was the last one used (created /
+    # stepped / reset) must end up exactly where it ends up alone - reset vector, VBAR reset value, SCR.NS
+    resg = {}
+    for c1 in CFGS:
+        solo = Inst(c1, 3)
+        gd = resg.setdefault(c1, GD('reset-c%d' % c1, solo.cfg, solo.base))
+        e_solo = solo.reset(gd)
+        gd.meta[e_solo['id']] = {'reset': 'solo', 'c': c1}
+        for c2 in CFGS:
+            if c2 == c1:
+                continue
+            for variant in ('other-created', 'other-stepped', 'other-reset'):
+                a = Inst(c1, 3)
+                b = Inst(c2, 3)
+                if variant == 'other-stepped':
+                    M.run_action(b.arm, {'n': 'Step'})
+                elif variant == 'other-reset':
+                    M.run_action(b.arm, {'n': 'Reset'})
+                ea = a.reset(gd)
+                gd.meta[ea['id']] = {'reset': variant, 'c': c1, 'other': c2}
+                eid = len(gd.events) + 1
+                gd.events.append({'id': eid, 'pre': {}, 'act': {'n': 'SameDelta'}, 'out': e_solo['out'], 'out2': ea['out'],
+                                  'cls': '', 'nunp': 0, 'd': e_solo['d'], 'd2': ea['d'], 'full': True})
+                gd.meta[eid] = {'pair': 'reset-' + variant, 'c': c1, 'other': c2}
+                ctx.behaviours += 1
+    allg = list(groups.values()) + list(detg.values()) + list(resg.values())
 
     def clause_filter(c, v, e):
-        if c in ('hosterror', 'cond-pass-differs'):
+        if c in ('hosterror', 'cond-pass-differs') or v['path'].startswith(('exc:Reset', 'pair:')):
             return True
         return v['path'].startswith('exact') and c not in ('range', 'confine', 'nop-on-condfail')
     res = C.judge_groups(ctx, allg, clause_filter, rnd=rnd, canary=False,
